@@ -68,8 +68,39 @@ def _legal_contents_cases():
                                      "always_oracle": True})
 
 
+def _round_trip_cases():
+    """the last sentence of the property — cutting the inserted Moves and reconstructing with exact weights returns the original expectation
+    values — on circuits where SEVERAL cut wires continue in the same part of the circuit (so that one subexperiment holds several
+    'prepare' halves on fresh qubits), next to one-cut and different-part placements; markers first/last on a wire, two markers on one
+    wire, markers directly after one another; deterministic, oracle on every case"""
+    W = lambda q: {"name": "cut_wire", "qubits": [q]}
+    G = lambda n, *qs, **kw: dict({"name": n, "qubits": list(qs)}, **kw)
+    R = lambda n, t, q: {"name": n, "qubits": [q], "params": [t]}
+    progs = [
+        # both cut wires continue into gates with q2: two fresh qubits in one subcircuit
+        (3, [R("ry", 0.7, 0), R("rx", 1.1, 1), R("ry", 0.4, 2), G("cx", 0, 1), R("rz", 0.3, 0), W(0), W(1), G("cx", 0, 2), R("ry", 0.5, 2),
+             G("cx", 1, 2), R("rx", 0.2, 0), R("ry", 0.6, 1)], ["ZZZ", "XIY", "IYX"]),
+        # the same with the markers separated by a gate, and the fresh wires interacting with one another only
+        (2, [R("ry", 0.9, 0), R("rx", 0.5, 1), G("cx", 0, 1), W(0), R("ry", 0.3, 1), W(1), G("cx", 1, 0), R("rx", 0.8, 0)], ["ZZ", "XY", "YI", "IZ"]),
+        # fresh wires whose first gate is the joint gate itself (nothing between the prepare half and the two-qubit gate)
+        (2, [G("h", 0), G("cx", 0, 1), R("ry", 0.4, 1), W(1), W(0), G("cz", 0, 1), G("h", 1)], ["ZZ", "XX", "ZI", "IX"]),
+        # two markers on ONE wire separated by a marker on another wire; first and last fresh qubits share a subcircuit
+        (2, [R("ry", 1.0, 0), W(0), G("cx", 0, 1), W(1), R("rx", 0.6, 1), W(0), G("cx", 1, 0), R("ry", 0.2, 1)], ["XZ"]),
+        # controls: one cut; two cuts whose fresh qubits lie in different subcircuits; marker first / last on a wire
+        (2, [R("ry", 0.7, 0), G("cx", 0, 1), W(1), R("rx", 0.4, 1), G("h", 0)], ["ZZ", "XY"]),
+        (3, [R("ry", 0.7, 1), G("cx", 1, 0), W(1), G("cx", 1, 2), W(2), R("rx", 0.9, 2), G("h", 0)], ["ZZZ", "XIY", "IZX"]),
+        (2, [W(0), R("ry", 0.6, 0), G("cx", 0, 1), R("rx", 0.3, 1), W(1)], ["ZZ", "YX"]),
+    ]
+    for nq, instrs, obs in progs:
+        nm = sum(1 for i in instrs if i["name"] == "cut_wire")
+        for qregs in ([nq], [1] * nq)[:2 if nm <= 2 else 1]:   # (8^markers subexperiments per part: the three-marker programs once)
+            yield ("transform", {"nq": nq, "qregs": qregs, "instrs": instrs, "wrap": True, "cregs": [], "obs": [{"l": l, "p": 0} for l in obs],
+                                 "generic": False, "round_trip": True, "always_oracle": True})
+
+
 def cases(rng, tier):
     yield from _legal_contents_cases()
+    yield from _round_trip_cases()
     N = 160 if tier == "quick" else 2500
     for _ in range(N):
         nq = rng.randint(1, 4)
@@ -152,6 +183,27 @@ def nontrivial_key(kind, payload):
     return hash(json.dumps(payload, sort_keys=True))
 
 
+def _round_trip(pp, want, payload):
+    from qiskit.primitives import SamplerResult
+    from qiskit.result import QuasiDistribution
+    from qiskit_addon_cutting import generate_cutting_experiments, reconstruct_expectation_values
+    from .. import workflow
+    try:
+        exps, coeffs = generate_cutting_experiments(pp.subcircuits, pp.subobservables, np.inf)
+        results = {}
+        for l, circs in exps.items():
+            d = workflow.exact_quasi_dists(circs)
+            results[l] = SamplerResult([QuasiDistribution(x) for x in d], [{}] * len(d))
+        got = [float(np.real(v)) for v in reconstruct_expectation_values(results, coeffs, pp.subobservables)]
+    except Exception as ex:
+        return f"cutting the inserted Moves and reconstructing raised {type(ex).__name__}: {ex}"
+    if not np.allclose(got, want, atol=1e-8):
+        return (f"cutting the {len(pp.bases)} inserted Move(s) and reconstructing with exact weights gives {[round(v, 6) for v in got]}, the circuit "
+                f"with the markers ignored has {[round(v, 6) for v in want]} (observables {[o['l'] for o in payload['obs']]}, "
+                f"subcircuit widths {[c.num_qubits for c in pp.subcircuits.values()]})")
+    return None
+
+
 def oracle(kind, payload):
     from qiskit_addon_cutting import cut_wires, expand_observables
     from qiskit_addon_cutting.wire_cutting_transforms import _transform_cuts_to_moves
@@ -212,4 +264,10 @@ def oracle(kind, payload):
                 return f"the circuit returned by cut_wires cannot be partitioned automatically: {type(ex).__name__}: {ex}"
             if sum(c.num_qubits for c in pp.subcircuits.values()) != out.num_qubits:
                 return "automatic partitioning of the cut circuit dropped a qubit"
+            if payload.get("round_trip") or nmark <= 1:
+                # last sentence of the property: cutting those Moves and reconstructing with exact weights returns the original values
+                # (subexperiment distributions by the reference simulator; reference = the input circuit with the markers ignored)
+                r = _round_trip(pp, a, payload)
+                if r:
+                    return r
     return None
